@@ -78,6 +78,12 @@ pub struct FindScenario {
     pub starts_via_file: bool,
     #[serde(default)]
     pub files0_empty_after: Option<usize>,
+    /// the last name in the -files0-from list is not followed by a NUL
+    #[serde(default)]
+    pub files0_no_final_nul: bool,
+    /// the process environment of the run (see `crate::ambient`)
+    #[serde(default)]
+    pub ambient: crate::ambient::Ambient,
 }
 
 /// Where the list of starting points is written (relative to find's working directory).
@@ -100,6 +106,8 @@ impl FindScenario {
             extras_global: vec![],
             starts_via_file: false,
             files0_empty_after: None,
+            files0_no_final_nul: false,
+            ambient: Default::default(),
         }
     }
 
@@ -139,6 +147,9 @@ impl FindScenario {
             }
             out.extend_from_slice(s.as_bytes());
             out.push(0);
+        }
+        if self.files0_no_final_nul && self.files0_empty_after != Some(starts.len()) {
+            out.pop();
         }
         Some(out)
     }
@@ -180,6 +191,18 @@ impl FindScenario {
             self.extras_global.push("-regextype".into());
             self.extras_global.push(rng.pick(&["posix-extended", "emacs", "grep"]).to_string());
         }
+        self.gen_ambient(rng);
+    }
+
+    /// Draw the process environment of the run: variables nobody should listen to, and a
+    /// terminal as descriptor 1. (Not where the environment's size is part of the scenario.)
+    pub fn gen_ambient(&mut self, rng: &mut crate::rng::Rng) {
+        let env = crate::ambient::Ambient::gen_env(rng, 6);
+        let tty = rng.chance(1, 10);
+        if self.env.is_none() && self.rlimit_stack.is_none() {
+            self.ambient.env = env;
+        }
+        self.ambient.stdout_tty = tty;
     }
 }
 
@@ -210,6 +233,8 @@ pub fn ns_to_systime(ns: i64) -> SystemTime {
 }
 
 pub struct FindObs {
+    /// what `account_find` reports about the process environment of the run
+    pub ambient: crate::ambient::Ambient,
     pub status: RunStatus,
     pub log: Log,
     pub stderr: Vec<u8>,
@@ -320,6 +345,7 @@ pub fn run_find_in(sc: &FindScenario, ctx: &mut Ctx, sub: &str) -> FindObs {
         let mut log = Log::default();
         log.budget_exhausted = false;
         return FindObs {
+            ambient: Default::default(),
             status: RunStatus::Panic(format!("HARNESS: cannot build tree: {e}")),
             log,
             stderr: vec![],
@@ -375,10 +401,17 @@ pub fn run_find_prebuilt(sc: &FindScenario, ctx: &mut Ctx, root: PathBuf) -> Fin
     };
     let mut argv = vec!["find".to_string()];
     argv.extend(sc.full_argv());
+    let mut ambient = sc.ambient.clone();
+    if sc.env.is_some() || sc.rlimit_stack.is_some() {
+        // the size of the environment is part of these scenarios
+        ambient.env.clear();
+    }
+    let guard = ambient.enter();
     let (status, stderr) = ctx.run_guarded(Box::new(world), move || {
         let refs: Vec<&str> = argv.iter().map(|s| s.as_str()).collect();
         findutils::find::find_main(&refs, &deps)
     });
+    drop(guard);
     let _ = std::env::set_current_dir(&ctx.scratch);
     drop(mstate);
     let log = match Rc::try_unwrap(log) {
@@ -386,6 +419,7 @@ pub fn run_find_prebuilt(sc: &FindScenario, ctx: &mut Ctx, root: PathBuf) -> Fin
         Err(rc) => std::mem::take(&mut *rc.borrow_mut()),
     };
     FindObs {
+        ambient,
         status,
         log,
         stderr,
@@ -442,5 +476,14 @@ pub fn account_find(obs: &FindObs, rep: &mut crate::prop::Report) {
             rep.trace.u64(*c as u64);
         }
         RunStatus::Panic(_) => rep.trace.byte(7),
+    }
+    if !obs.ambient.env.is_empty() {
+        rep.probe("environment_variables_nobody_should_listen_to");
+    }
+    if obs.ambient.stdout_tty && crate::ambient::tty_available() {
+        rep.probe("descriptor_1_is_a_terminal");
+    }
+    if obs.ambient.nofile_headroom.is_some() {
+        rep.probe("low_descriptor_limit");
     }
 }
